@@ -358,6 +358,46 @@ def _translate_caches():
     return per_file, module_cmp, template_cmp
 
 
+def _translate_nested():
+    """Where load_custom_kernel_module hands the dependencies of a module to the module that is being loaded on top of
+    it: after the reload branch (True: whether or not the child had to be reloaded) or inside it (False).  The order
+    of the reload branch itself (dependencies reset to the module's own file, push, execute, pop, ..., stamps) is
+    required as is (Untranslatable otherwise)."""
+    import ast
+    tree = ast.parse(open(os.path.join(common.REPO, "sasmodels", "custom", "__init__.py")).read())
+    fn = [n for n in tree.body if isinstance(n, ast.FunctionDef) and n.name == "load_custom_kernel_module"]
+    if len(fn) != 1:
+        raise Untranslatable("load_custom_kernel_module not found")
+    body = [b for b in fn[0].body if not (isinstance(b, ast.Expr) and isinstance(b.value, ast.Constant))]
+    ifs = [b for b in body if isinstance(b, ast.If)]
+    if not ifs or ast.unparse(ifs[0].test) != "need_reload(path)" or ifs[0].orelse:
+        raise Untranslatable("no 'if need_reload(path):' statement")
+    hand = ["working_on = _MODULE_DEPENDS_STACK[-1]", "_MODULE_DEPENDS[working_on].update(_MODULE_DEPENDS[path])"]
+
+    def is_handoff(b):
+        return isinstance(b, ast.If) and ast.unparse(b.test) == "_MODULE_DEPENDS_STACK" and not b.orelse and [ast.unparse(x) for x in b.body] == hand
+    rb = [ast.unparse(b) for b in ifs[0].body if not is_handoff(b)]
+    want = ["_MODULE_DEPENDS[path] = set([path])", "_MODULE_DEPENDS_STACK.append(path)", "module = load_module_from_path('sasmodels.custom.' + name, path)",
+            "_MODULE_DEPENDS_STACK.pop()"]
+    if rb[:4] != want or rb[-1] != "_MODULE_CACHE[path] = (module, timestamps)" \
+            or not any(t == "timestamps = dict(((f, os.path.getmtime(f)) for f in _MODULE_DEPENDS[path]))" for t in rb[4:-1]):
+        raise Untranslatable("reload branch: %s" % rb)
+    if any("_MODULE_DEPENDS_STACK" in t or "need_reload" in t for t in rb[4:]):
+        raise Untranslatable("reload branch touches the stack again")
+    if ast.unparse(body[-1]) != "return _MODULE_CACHE[path][0]":
+        raise Untranslatable("return statement")
+    top = [b for b in body if is_handoff(b)]
+    inside = [b for b in ifs[0].body if is_handoff(b)]
+    others = [b for b in ast.walk(fn[0]) if isinstance(b, ast.If) and "_MODULE_DEPENDS_STACK" in ast.unparse(b.test) and not is_handoff(b)]
+    if others or len(top) + len(inside) != 1:
+        raise Untranslatable("hand-off of the dependencies to the parent module not recognised")
+    if top and not (body.index(top[0]) == body.index(ifs[0]) + 1 and body.index(top[0]) == len(body) - 2):
+        raise Untranslatable("hand-off is not the statement between the reload branch and the return")
+    if inside and ifs[0].body[-1] is not inside[0]:
+        raise Untranslatable("hand-off inside the reload branch is not its last statement")
+    return bool(top)
+
+
 def gen():
     """Regenerate Gen/C17_code.v from the text of custom/__init__.py and generate.py."""
     lines = ["(* GENERATED by harness/c17.py from sasmodels/custom/__init__.py (need_reload, load_custom_kernel_module) and sasmodels/generate.py (load_template) *)",
@@ -365,9 +405,10 @@ def gen():
     note = None
     try:
         per_file, mcmp, tcmp = _translate_caches()
+        always = _translate_nested()
     except (Untranslatable, OSError, SyntaxError) as exc:
         note = "%s: %s" % (type(exc).__name__, exc)
-        per_file, mcmp, tcmp = True, "Nat.ltb stamp mtime", "Nat.ltb stamp mtime"
+        per_file, mcmp, tcmp, always = True, "Nat.ltb stamp mtime", "Nat.ltb stamp mtime", True
     lines.append("Definition translated : bool := %s." % ("true" if note is None else "false"))
     if note:
         lines.append("(* not translated: %s *)" % note.replace("*)", "* )"))
@@ -376,7 +417,10 @@ def gen():
               "(* a cached module is stale for a dependency when ... *)",
               "Definition code_module_stale (stamp mtime : nat) : bool := %s." % mcmp,
               "(* a cached template is stale when ... *)",
-              "Definition code_template_stale (stamp mtime : nat) : bool := %s." % tcmp, ""]
+              "Definition code_template_stale (stamp mtime : nat) : bool := %s." % tcmp,
+              "(* a module hands its dependencies to the module being loaded on top of it after the reload branch - whether or not it",
+              "   had to be reloaded itself (true) - or only inside the reload branch (false) *)",
+              "Definition code_handoff_always : bool := %s." % ("true" if always else "false"), ""]
     common.write_if_changed(os.path.join(common.THEORIES, "Gen", "C17_code.v"), "\n".join(lines))
     return note
 
@@ -385,7 +429,7 @@ def main(run):
     rng = random.Random(run.seed * 271 + 17)
     thorough = run.tier == "thorough"
     note = []
-    run.prove(["C17/Property.v"], gen=lambda: note.append(gen()))
+    run.prove(["C17/Property.v", "C17/Nested.v"], gen=lambda: note.append(gen()))
     if note and note[0]:
         run.notes.append("cache decisions not translated (%s): the source-text obligations C17_code_* are vacuous in this run, the behavioural tie decides" % note[0])
     else:
